@@ -211,7 +211,7 @@ func c17Rules(c *Ctx, alias string) {
 					a := Args(x)
 					switch {
 					case IsCallTo(x, "(*go.uber.org/zap.Logger).Check", "(*go.uber.org/zap.Logger).Log") && len(a) >= 3:
-						if st.Desc(a[1]) != rn+".Level" {
+						if st.Desc(a[1]) != rn+".Level" && st.Desc(resolve(st, a[1])) != rn+".Level" {
 							return "log-at(" + st.Desc(a[1]) + ")"
 						}
 						return "log(" + canon(st, a[2], 0) + ")"
@@ -281,7 +281,7 @@ func c17Rules(c *Ctx, alias string) {
 					return n + "=F"
 				}
 				if cl, ok := cond.(*ssa.Call); ok && isEnabledCall(cl) {
-					if st.Desc(Args(cl)[len(Args(cl))-1]) != rn+".Level" {
+					if lv := Args(cl)[len(Args(cl))-1]; st.Desc(lv) != rn+".Level" && st.Desc(resolve(st, lv)) != rn+".Level" {
 						return "gate?(" + st.Desc(cl) + ")"
 					}
 					return tf("enabled", pol)
